@@ -32,6 +32,8 @@ struct Case {
     fwd: Vec<(String, u64)>,
     mem_base: u64,
     mem: Vec<u8>,
+    /// `stack` cases: (arch, callee sp, leaf allowed, pointer-auth mask)
+    stack: Option<(String, u64, bool, Option<u64>)>,
 }
 
 fn strip<'a>(s: &'a str, key: &str) -> Option<&'a str> {
@@ -54,8 +56,28 @@ fn parse_pairs(s: &str) -> Option<Vec<(String, u64)>> {
 }
 
 fn parse_case(line: &str) -> Option<Case> {
-    let f: Vec<&str> = line.split(' ').filter(|s| !s.is_empty()).collect();
-    if f.len() != 12 || f[0] != "cfi" || f[1] != "walk" {
+    let mut f: Vec<&str> = line.split(' ').filter(|s| !s.is_empty()).collect();
+    if f.len() < 2 || f[0] != "cfi" {
+        return None;
+    }
+    let mut stack = None;
+    if f[1] == "stack" {
+        if f.len() != 16 {
+            return None;
+        }
+        let arch = strip(f[2], "arch:")?.to_string();
+        let sp: u64 = strip(f[13], "sp:")?.parse().ok()?;
+        let leaf = match strip(f[14], "leaf:")? {
+            "0" => false,
+            "1" => true,
+            _ => return None,
+        };
+        let st = strip(f[15], "strip:")?;
+        let st = if st == "-" { None } else { Some(st.parse::<u64>().ok()?) };
+        stack = Some((arch, sp, leaf, st));
+        f.remove(2);
+        f.truncate(12);
+    } else if f[1] != "walk" || f.len() != 12 {
         return None;
     }
     let mut c = Case {
@@ -114,6 +136,7 @@ fn parse_case(line: &str) -> Option<Case> {
     }
     c.mem_base = mem[0].parse().ok()?;
     c.mem = unhex(mem[1])?;
+    c.stack = stack;
     Some(c)
 }
 
@@ -126,8 +149,20 @@ fn render_pairs(v: &[(String, u64)]) -> String {
 }
 
 fn render(c: &Case) -> String {
+    let head = match &c.stack {
+        None => "cfi walk".to_string(),
+        Some((arch, ..)) => format!("cfi stack arch:{arch}"),
+    };
+    let tail = match &c.stack {
+        None => String::new(),
+        Some((_, sp, leaf, st)) => format!(
+            " sp:{sp} leaf:{} strip:{}",
+            *leaf as u8,
+            st.map(|m| m.to_string()).unwrap_or_else(|| "-".into())
+        ),
+    };
     format!(
-        "cfi walk base:{} instr:{} ptr:{} init:{}:{}:{} adds:{} known:{} alias:{} callee:{} fwd:{} mem:{}:{}",
+        "{head} base:{} instr:{} ptr:{} init:{}:{}:{} adds:{} known:{} alias:{} callee:{} fwd:{} mem:{}:{}{tail}",
         c.base,
         c.instr,
         c.ptr,
@@ -480,9 +515,11 @@ fn doc_parse_line<'a>(line: &'a str, into: &mut Vec<(DReg, Vec<&'a str>)>) -> Re
 }
 
 /// What the documentation prescribes for this case. `Err(why)`: the oracle abstains.
-fn doc_expect(c: &Case, mock0: &Mock) -> Result<String, &'static str> {
+type DocState = Option<(u64, u64, Vec<(String, u64)>)>;
+
+fn doc_expect(c: &Case, mock0: &Mock) -> Result<DocState, &'static str> {
     if c.instr < c.base {
-        return Ok("none".into());
+        return Ok(None);
     }
     let a = c.instr - c.base;
     // the INIT record covers `num_bytes` from its address
@@ -491,7 +528,7 @@ fn doc_expect(c: &Case, mock0: &Mock) -> Result<String, &'static str> {
         && a >= c.init_addr
         && a - c.init_addr < c.init_size;
     if !covered {
-        return Ok("none".into());
+        return Ok(None);
     }
     // "start with its STACK CFI INIT and then apply all the applicable STACK CFI diffs in order"
     let mut app: Vec<&(u64, Vec<u8>)> = c.adds.iter().filter(|(x, _)| *x <= a).collect();
@@ -509,17 +546,17 @@ fn doc_expect(c: &Case, mock0: &Mock) -> Result<String, &'static str> {
     for l in lines {
         match doc_parse_line(l, &mut rules) {
             Err(()) => return Err("undocumented-label"),
-            Ok(None) => return Ok("none".into()),
+            Ok(None) => return Ok(None),
             Ok(Some(())) => {}
         }
     }
     let find = |r: &DReg| rules.iter().find(|(k, _)| k == r).map(|(_, e)| e.clone());
     // ".cfa and .ra must always have defined rules, or the STACK CFI is malformed."
-    let (Some(cfa_e), Some(ra_e)) = (find(&DReg::Cfa), find(&DReg::Ra)) else { return Ok("none".into()) };
-    let Some(cfa) = doc_eval(&cfa_e, mock0, None).map_err(|_| "undocumented-token")? else { return Ok("none".into()) };
-    let Some(ra) = doc_eval(&ra_e, mock0, Some(cfa)).map_err(|_| "undocumented-token")? else { return Ok("none".into()) };
+    let (Some(cfa_e), Some(ra_e)) = (find(&DReg::Cfa), find(&DReg::Ra)) else { return Ok(None) };
+    let Some(cfa) = doc_eval(&cfa_e, mock0, None).map_err(|_| "undocumented-token")? else { return Ok(None) };
+    let Some(ra) = doc_eval(&ra_e, mock0, Some(cfa)).map_err(|_| "undocumented-token")? else { return Ok(None) };
     if !mock0.fits(cfa) || !mock0.fits(ra) {
-        return Ok("none".into());
+        return Ok(None);
     }
     let mut regs: Vec<(String, u64)> = c.fwd.clone();
     let mut touched: Vec<&str> = vec![];
@@ -539,7 +576,7 @@ fn doc_expect(c: &Case, mock0: &Mock) -> Result<String, &'static str> {
             _ => regs.retain(|(n, _)| n != m),
         }
     }
-    Ok(show_state(Some(cfa), Some(ra), &regs))
+    Ok(Some((cfa, ra, regs)))
 }
 
 // ------------------------------------------------------------------------------------ generator
@@ -1046,6 +1083,13 @@ impl Engine for Cfi {
         self.gen_exhaustive_deltas(emit);
         self.gen_exhaustive_lines(llen, emit);
         self.gen_exhaustive_exprs(elen, emit);
+        let nstack = match tier {
+            Tier::Quick => 30_000,
+            Tier::Thorough => 300_000,
+        };
+        for _ in 0..nstack {
+            emit(gen_stack(rng));
+        }
         for i in 0..nrand {
             if i % 3 == 0 {
                 emit(self.gen_long_expr(rng));
@@ -1065,6 +1109,9 @@ impl Engine for Cfi {
         if !text_ok(&c.init) || !c.adds.iter().all(|(_, r)| text_ok(r)) {
             res.out = "bad-op".into();
             return res;
+        }
+        if c.stack.is_some() {
+            return exec_stack(&c);
         }
         let sym = match catch(|| SymbolFile::from_bytes(&symbol_file_text(&c))) {
             Ok(Ok(s)) => s,
@@ -1127,7 +1174,10 @@ impl Engine for Cfi {
         }
         res.nontrivial = covered && has_op && (res.out != "none" || mock.sets + mock.clears > 0 || applicable > 0);
         // ---- the documented semantics, evaluated independently
-        match doc_expect(&c, &pristine) {
+        match doc_expect(&c, &pristine).map(|w| match w {
+            None => "none".to_string(),
+            Some((cfa, ra, regs)) => show_state(Some(cfa), Some(ra), &regs),
+        }) {
             Ok(want) => {
                 if want != res.out {
                     // a rule whose value does not fit the register: neither set nor marked unknown
@@ -1207,11 +1257,13 @@ impl Engine for Cfi {
                     }
                 };
             }
-            try_drop!(fwd);
-            try_drop!(callee);
-            try_drop!(alias);
-            try_drop!(known);
-            if !c.mem.is_empty() {
+            if c.stack.is_none() {
+                try_drop!(fwd);
+                try_drop!(callee);
+                try_drop!(alias);
+                try_drop!(known);
+            }
+            if !c.mem.is_empty() && c.stack.is_none() {
                 let mut k = c.clone();
                 k.mem.clear();
                 if still_fails(&render(&k)) {
@@ -1253,4 +1305,365 @@ fn stale_forward(c: &Case, got: &str, want: &str) -> bool {
         }
     }
     any && w.iter().all(|p| g.contains(p))
+}
+
+// ------------------------------------------------------------------------------------ walk_stack
+// `stack` cases: the real `CfiStackWalker` through `minidump_unwind::walk_stack` on a CFI-only
+// symbol file; the case line carries the walker description (derived from the tables below) so
+// that the Lean model answers it like a `walk` case followed by `stackGlue`.
+
+struct Arch {
+    name: &'static str,
+    ptr: u32,
+    regs: &'static [&'static str],
+    alias: &'static [(&'static str, &'static str)],
+    saved: &'static [&'static str],
+    sp: &'static str,
+    ip: &'static str,
+    leaf: bool,
+    strip: Option<u64>,
+}
+
+const ARCHS: &[Arch] = &[
+    Arch {
+        name: "x86",
+        ptr: 4,
+        regs: &["eip", "esp", "ebp", "ebx", "esi", "edi", "eax", "ecx", "edx", "eflags"],
+        alias: &[],
+        saved: &["ebp", "ebx", "edi", "esi"],
+        sp: "esp",
+        ip: "eip",
+        leaf: false,
+        strip: None,
+    },
+    Arch {
+        name: "amd64",
+        ptr: 8,
+        regs: &[
+            "rax", "rdx", "rcx", "rbx", "rsi", "rdi", "rbp", "rsp", "r8", "r9", "r10", "r11", "r12", "r13", "r14", "r15",
+            "rip",
+        ],
+        alias: &[],
+        saved: &["rbx", "rbp", "r12", "r13", "r14", "r15"],
+        sp: "rsp",
+        ip: "rip",
+        leaf: false,
+        strip: None,
+    },
+    Arch {
+        name: "arm64",
+        ptr: 8,
+        regs: &[
+            "x0", "x1", "x2", "x3", "x4", "x5", "x6", "x7", "x8", "x9", "x10", "x11", "x12", "x13", "x14", "x15", "x16",
+            "x17", "x18", "x19", "x20", "x21", "x22", "x23", "x24", "x25", "x26", "x27", "x28", "fp", "lr", "sp", "pc",
+        ],
+        alias: &[("x29", "fp"), ("x30", "lr")],
+        saved: &["x19", "x20", "x21", "x22", "x23", "x24", "x25", "x26", "x27", "x28", "fp"],
+        sp: "sp",
+        ip: "pc",
+        leaf: true,
+        strip: Some((1 << 47) - 1),
+    },
+];
+
+const MODULE_SIZE: u32 = 0x10000;
+
+/// the walker description an architecture's glue gives `walk_frame` for a context with the
+/// register values `callee` (all valid) — what the `stack` case line must carry
+fn arch_walker(a: &Arch, callee: &[(String, u64)]) -> Case {
+    let mut c = Case { ptr: a.ptr, ..Default::default() };
+    c.known = a.regs.iter().map(|s| s.to_string()).collect();
+    c.alias = a.alias.iter().map(|(x, y)| (x.to_string(), y.to_string())).collect();
+    c.callee = callee.to_vec();
+    for r in a.saved {
+        if let Some((n, v)) = callee.iter().find(|(n, _)| n == r) {
+            c.fwd.push((n.clone(), *v));
+        }
+    }
+    let sp = callee.iter().find(|(n, _)| n == a.sp).map(|(_, v)| *v).unwrap_or(0);
+    c.stack = Some((a.name.to_string(), sp, a.leaf, a.strip));
+    c
+}
+
+fn run_walk_stack(a: &Arch, c: &Case) -> Result<String, String> {
+    use minidump::format as md;
+    use minidump::system_info::{Cpu, Os};
+    use minidump::{CpuContext, MinidumpContext, MinidumpContextValidity, MinidumpMemory, MinidumpModuleList, MinidumpRawContext, UnifiedMemory};
+    use minidump_unwind::{string_symbol_supplier, walk_stack, CallStack, FrameTrust, Symbolizer, SystemInfo};
+    fn fill<C: CpuContext>(ctx: &mut C, callee: &[(String, u64)])
+    where
+        C::Register: TryFrom<u64>,
+    {
+        for (n, v) in callee {
+            if let Ok(x) = C::Register::try_from(*v) {
+                ctx.set_register(n, x);
+            }
+        }
+    }
+    let (raw, cpu) = match a.name {
+        "x86" => {
+            let mut ctx = md::CONTEXT_X86::default();
+            fill(&mut ctx, &c.callee);
+            (MinidumpRawContext::X86(ctx), Cpu::X86)
+        }
+        "amd64" => {
+            let mut ctx = md::CONTEXT_AMD64::default();
+            fill(&mut ctx, &c.callee);
+            (MinidumpRawContext::Amd64(ctx), Cpu::X86_64)
+        }
+        _ => {
+            let mut ctx = md::CONTEXT_ARM64::default();
+            fill(&mut ctx, &c.callee);
+            (MinidumpRawContext::Arm64(ctx), Cpu::Arm64)
+        }
+    };
+    let context = MinidumpContext { raw, valid: MinidumpContextValidity::All };
+    let modules = MinidumpModuleList::from_modules(vec![MinidumpModule::new(c.base, MODULE_SIZE, "mod")]);
+    let mut symbols = std::collections::HashMap::new();
+    symbols.insert("mod".to_string(), String::from_utf8(symbol_file_text(c)).map_err(|_| "utf8".to_string())?);
+    let memory = MinidumpMemory {
+        desc: Default::default(),
+        base_address: c.mem_base,
+        size: c.mem.len() as u64,
+        bytes: &c.mem,
+        endian: scroll::LE,
+    };
+    let system_info = SystemInfo {
+        os: Os::Linux,
+        os_version: None,
+        os_build: None,
+        cpu,
+        cpu_info: None,
+        cpu_microcode_version: None,
+        cpu_count: 1,
+    };
+    let symbolizer = Symbolizer::new(string_symbol_supplier(symbols));
+    let mut stack = CallStack::with_context(context);
+    let rt = tokio::runtime::Builder::new_current_thread().build().map_err(|e| e.to_string())?;
+    catch(|| {
+        rt.block_on(walk_stack(
+            0,
+            (),
+            &mut stack,
+            Some(UnifiedMemory::Memory(&memory)),
+            &modules,
+            &system_info,
+            &symbolizer,
+        ))
+    })?;
+    let Some(f1) = stack.frames.get(1) else { return Ok("nocfi".into()) };
+    if f1.trust != FrameTrust::CallFrameInfo {
+        return Ok("nocfi".into());
+    }
+    let regs: Vec<(String, u64)> = f1
+        .context
+        .valid_registers()
+        .filter(|(n, _)| *n != a.sp && *n != a.ip)
+        .map(|(n, v)| (n.to_string(), v))
+        .collect();
+    Ok(show_state(
+        f1.context.get_register(a.sp),
+        f1.context.get_register(a.ip),
+        &regs,
+    ))
+}
+
+/// the glue around `walk_frame` (see `MdModel.Cfi.stackGlue`), applied to the documented result
+fn glue(c: &Case, st: DocState) -> String {
+    let Some((_, sp, leaf, strip)) = &c.stack else { return "bad-op".into() };
+    let in_stack = !c.mem.is_empty()
+        && c.mem_base.checked_add(c.mem.len() as u64 - 1).is_some()
+        && *sp >= c.mem_base
+        && *sp - c.mem_base < c.mem.len() as u64;
+    let Some((cfa, mut ra, mut regs)) = st else { return "nocfi".into() };
+    if !in_stack {
+        return "nocfi".into();
+    }
+    if let Some(m) = strip {
+        ra &= m;
+        for (n, v) in regs.iter_mut() {
+            if n == "fp" || n == "lr" {
+                *v &= m;
+            }
+        }
+    }
+    if ra < 4096 || (cfa <= *sp && !(*leaf && cfa == *sp)) {
+        return "nocfi".into();
+    }
+    show_state(Some(cfa), Some(ra), &regs)
+}
+
+fn exec_stack(c: &Case) -> ImplResult {
+    let mut res = ImplResult::default();
+    let Some((arch, ..)) = &c.stack else { unreachable!() };
+    let Some(a) = ARCHS.iter().find(|a| a.name == arch) else {
+        res.out = "bad-op".into();
+        return res;
+    };
+    // the walker description on the line must be the one the architecture's glue produces
+    let want = arch_walker(a, &c.callee);
+    let in_module = c.instr >= c.base && c.instr - c.base < MODULE_SIZE as u64;
+    let ip = c.callee.iter().find(|(n, _)| n == a.ip).map(|(_, v)| *v);
+    if want.known != c.known
+        || want.alias != c.alias
+        || want.fwd != c.fwd
+        || want.ptr != c.ptr
+        || want.stack != c.stack
+        || c.callee.len() != a.regs.len()
+        || !c.callee.iter().zip(a.regs).all(|((n, v), r)| n == r && (a.ptr == 8 || *v <= u32::MAX as u64))
+        || ip != Some(c.instr)
+        || !in_module
+        || c.base.checked_add(MODULE_SIZE as u64).is_none()
+    {
+        res.out = "bad-op".into();
+        return res;
+    }
+    res.tags.push(format!("stack:{}", a.name));
+    match run_walk_stack(a, c) {
+        Ok(out) => res.out = out,
+        Err(msg) => {
+            res.out = "PANIC".into();
+            res.oracle.push(("walk-stack-panics".into(), msg));
+            return res;
+        }
+    }
+    res.tags.push(if res.out == "nocfi" { "stack-result:nocfi".into() } else { "stack-result:cfi-frame".into() });
+    res.nontrivial = res.out != "nocfi";
+    let pristine = Mock::new(c);
+    // a rule labelled with the stack or instruction pointer itself is outside what the glue model covers
+    match doc_expect(c, &pristine) {
+        Ok(st) => {
+            let want = glue(c, st);
+            if want != res.out {
+                let class = if res.out != "nocfi" && want != "nocfi" && stale_forward(c, &res.out, &want) {
+                    "reg-neither-set-nor-cleared"
+                } else {
+                    "differs-from-documented-semantics"
+                };
+                res.oracle.push((class.into(), format!("documented: {want}  implementation: {}", res.out)));
+            }
+            res.tags.push("oracle:decided".into());
+        }
+        Err(why) => res.tags.push(format!("oracle:abstains:{why}")),
+    }
+    res
+}
+
+fn gen_stack(rng: &mut Rng) -> String {
+    let a = &ARCHS[rng.below(ARCHS.len() as u64) as usize];
+    let base: u64 = 0x4000_0000;
+    let sp: u64 = if a.ptr == 4 { 0x8000_0000 } else { 0x7ffd_0000_1000 } + 8 * rng.below(4);
+    let word = a.ptr as u64;
+    let nwords = 4 + rng.below(12);
+    let off = rng.below(0x100) + 0x10;
+    let instr = base + off;
+    // stack image: small values, code addresses, stack addresses, a few extremes
+    let mut mem: Vec<u8> = vec![];
+    for _ in 0..nwords {
+        let v: u64 = match rng.below(8) {
+            0 => 0,
+            1 => base + 0x1000 + rng.below(0x100),
+            2 => sp + word * rng.below(nwords),
+            3 => {
+                if a.ptr == 4 {
+                    0xffff_fff0 + rng.below(16)
+                } else {
+                    u64::MAX - rng.below(16)
+                }
+            }
+            4 => rng.below(5000),
+            _ => base + rng.below(MODULE_SIZE as u64),
+        };
+        mem.extend_from_slice(&v.to_le_bytes()[..a.ptr as usize]);
+    }
+    let mem_base = if rng.chance(1, 12) { sp + word } else { sp - word * rng.below(2) };
+    let mask = if a.ptr == 4 { 0xffff_ffffu64 } else { u64::MAX };
+    let callee: Vec<(String, u64)> = a
+        .regs
+        .iter()
+        .map(|r| {
+            let v = if *r == a.sp {
+                sp
+            } else if *r == a.ip {
+                instr
+            } else {
+                match rng.below(6) {
+                    0 => 0,
+                    1 => mask,
+                    2 => sp + word * rng.below(nwords),
+                    3 => 4,
+                    _ => rng.below(0x10000),
+                }
+            };
+            (r.to_string(), v & mask)
+        })
+        .collect();
+    let mut c = arch_walker(a, &callee);
+    c.base = base;
+    c.instr = instr;
+    c.mem_base = mem_base;
+    c.mem = mem;
+    c.init_addr = off - rng.below(4).min(off);
+    c.init_size = 4 + rng.below(0x20);
+    let dollar = a.name != "arm64";
+    let regname = |n: &str, rng: &mut Rng| -> String {
+        if dollar != rng.chance(1, 10) {
+            format!("${n}")
+        } else {
+            n.to_string()
+        }
+    };
+    let spn = regname(a.sp, rng);
+    // other registers: callee-saved ones, a scratch register, aliases, an unknown one
+    let mut pool: Vec<String> = a.saved.iter().map(|s| s.to_string()).collect();
+    pool.push(a.regs.iter().find(|r| ["eax", "rax", "x0"].contains(r)).unwrap().to_string());
+    pool.extend(a.alias.iter().map(|(x, _)| x.to_string()));
+    pool.push("nosuch".into());
+    let gen_other = |c: &Case, rng: &mut Rng| -> String {
+        let n = rng.pick(&pool[..]).clone();
+        let mut e = vec![];
+        match rng.below(8) {
+            0 => e.push(".undef".to_string()),
+            1 => e = vec![".cfa".into(), (word * rng.below(6)).to_string(), "-".into(), "^".into()],
+            2 => e = vec![lit_pool(rng)],
+            3 => {
+                let r = rng.pick(&pool[..]).clone();
+                e = vec![regname(&r, rng), lit_pool(rng), rng.pick(&["+", "-", "*", "@"]).to_string()]
+            }
+            _ => {
+                let d = 1 + rng.below(3) as u32;
+                gen_expr(c, rng, d, true, &mut e);
+                if rng.chance(1, 5) {
+                    damage(&mut e, c, rng);
+                }
+            }
+        }
+        format!("{}: {}", regname(&n, rng), e.join(" "))
+    };
+    let cfa_rule = |rng: &mut Rng| format!(".cfa: {spn} {} +", word * (1 + rng.below(nwords)));
+    let mut init = vec![cfa_rule(rng)];
+    init.push(match rng.below(6) {
+        0 => format!(".ra: {}", base + 0x2000 + rng.below(0x100)),
+        1 => ".ra: 0".to_string(),
+        _ => format!(".ra: .cfa {} - ^", word * (1 + rng.below(3))),
+    });
+    for _ in 0..rng.below(4) {
+        init.push(gen_other(&c, rng));
+    }
+    if rng.chance(1, 20) {
+        init.remove(rng.below(2) as usize);
+    }
+    c.init = init.join(" ").into_bytes();
+    for _ in 0..rng.below(3) {
+        let addr = c.init_addr + rng.below(c.init_size + 1);
+        let mut parts = vec![];
+        if rng.chance(1, 3) {
+            parts.push(cfa_rule(rng));
+        }
+        for _ in 0..(1 + rng.below(2)) {
+            parts.push(gen_other(&c, rng));
+        }
+        c.adds.push((addr, parts.join(" ").into_bytes()));
+    }
+    render(&c)
 }
